@@ -347,6 +347,11 @@ Proof.
   exists (mkMessage None [97; 255] [] [112] 1 None false None). split; vm_compute; reflexivity.
 Qed.
 
+(* still true after the fix: CBOR null (0xf6) is "decoded" into the struct without any effect and without an error,
+   so a fresh Message stays empty and UnmarshalBinary returns nil *)
+Theorem message_null_silently_empty : message_unmarshal empty_message [246] = (empty_message, false).
+Proof. reflexivity. Qed.
+
 (* ---- the code before the fix (regression examples) ---- *)
 Theorem message_unmarshal_v0_never_errors m0 bs : snd (message_unmarshal_v0 m0 bs) = false.
 Proof. unfold message_unmarshal_v0. destruct (message_decode m0 bs); reflexivity. Qed.
@@ -819,33 +824,39 @@ Section ConfigSound.
   Hypothesis ab_valid : forall k, 0 < k < secp_q -> valid_point (ab k).
 
   Definition entry_ok (id : bytes) (x y NN : Z) (p : pub_c) : Prop :=
-    (pc_id p = id /\ pc_ecdsa p = ab x /\ pc_elgamal p = ab y /\ pc_N p = NN) \/
+    (pc_id p = id /\ pc_ecdsa p = ab x /\ pc_elgamal p = ab y /\ pc_N p = NN /\
+     valid_pedersen NN (pc_S p) (pc_T p)) \/
     (pc_id p <> id /\ valid_pub p).
 
-  Lemma process_publics_inv id x y NN : forall l acc ps,
+  Lemma process_publics_inv id x y NN : 1 < NN -> forall l acc ps,
     Forall wf_entry l ->
     NoDup (map pc_id acc) -> Forall (entry_ok id x y NN) acc ->
     process_publics ab id x y NN l acc = Ok ps ->
     NoDup (map pc_id ps) /\ Forall (entry_ok id x y NN) ps.
   Proof.
-    induction l as [|o l IH]; intros acc ps Hwf Hnd Hok H.
+    intro HNN. induction l as [|o l IH]; intros acc ps Hwf Hnd Hok H.
     - cbn in H. injection H as <-. now split.
     - inversion Hwf as [|? ? Ho Hl]; subst.
       destruct o as [p|c|]; cbn [process_publics] in H; try discriminate.
       destruct (has_id (pm_id p) acc) eqn:Hid; [discriminate|].
       apply has_id_false in Hid.
+      destruct (pm_S p) as [sv|] eqn:ES; [|discriminate].
+      destruct (pm_T p) as [tv|] eqn:ET; [|discriminate].
       destruct (bytes_eqb (pm_id p) id) eqn:Eid.
       + apply bytes_eqb_eq in Eid.
+        destruct (validate_pedersen (Some NN) (Some sv) (Some tv)) eqn:EP; cbn [negb] in H; [|discriminate].
         apply IH in H; auto.
         * rewrite map_app. cbn [map pc_id]. now apply NoDup_snoc.
         * apply Forall_app. split; [assumption|]. constructor; [|constructor].
-          left. cbn. auto.
+          left. cbn [pc_id pc_ecdsa pc_elgamal pc_N pc_S pc_T]. repeat split; auto.
+          eapply validate_pedersen_spec; eauto.
       + apply bytes_eqb_neq in Eid.
-        destruct (validate_N (pm_N p)) eqn:EN; cbn [negb] in H; [|discriminate].
-        destruct (validate_pedersen (pm_N p) (pm_S p) (pm_T p)) eqn:EP; cbn [negb] in H; [|discriminate].
+        destruct (pm_N p) as [n|] eqn:En; [|discriminate].
+        destruct (validate_N (Some n)) eqn:EN; cbn [negb] in H; [|discriminate].
+        destruct (validate_pedersen (Some n) (Some sv) (Some tv)) eqn:EP; cbn [negb] in H; [|discriminate].
         destruct (is_identity (pm_ecdsa p) || is_identity (pm_elgamal p)) eqn:EI; [discriminate|].
         apply orb_false_iff in EI as [EI1 EI2].
-        apply validate_N_spec in EN as (n & En & Hbits & Hodd). rewrite En in H.
+        apply validate_N_spec in EN as (n' & En' & Hbits & Hodd). injection En' as <-.
         destruct Ho as [Ho1 Ho2].
         apply IH in H; auto.
         * rewrite map_app. cbn [map pc_id]. now apply NoDup_snoc.
@@ -859,11 +870,11 @@ Section ConfigSound.
 
   Lemma validate_prime_spec p :
     validate_prime pt p = true ->
-    exists p', p = Some p' /\ bitlen p' = bits_blum_prime /\ p' mod 4 = 3 /\ pt (p' / 2) = true.
+    exists p', p = Some p' /\ bitlen p' = bits_blum_prime /\ p' mod 4 = 3 /\ pt (p' / 2) = true /\ pt p' = true.
   Proof.
     destruct p as [p|]; cbn [validate_prime]; [|discriminate]. intro H.
-    apply andb_true_iff in H as [H H3]. apply andb_true_iff in H as [H1 H2].
-    apply Z.eqb_eq in H1, H2. eauto.
+    apply andb_true_iff in H as [H H4]. apply andb_true_iff in H as [H H3]. apply andb_true_iff in H as [H1 H2].
+    apply Z.eqb_eq in H1, H2. exists p. auto.
   Qed.
 
   Lemma mod4_3_odd p : p mod 4 = 3 -> Z.odd p = true.
@@ -880,60 +891,74 @@ Section ConfigSound.
     apply Z.ltb_ge in H1, H2. lia.
   Qed.
 
-  (* what the checks as written DO establish *)
+  Lemma rid_validate_spec r : rid_validate r = true -> valid_rid r /\ nonzero_rid r.
+  Proof.
+    destruct r as [b|]; cbn [rid_validate]; [|discriminate]. intro H.
+    apply andb_true_iff in H as [H1 H2]. apply Nat.eqb_eq in H1. apply negb_true_iff in H2.
+    split; exists b; auto.
+  Qed.
+
+  (* what the checks of the repaired UnmarshalBinary establish *)
   Lemma config_checks_facts cm c :
     wf_config_m cm -> config_checks pt ab cm = Ok c ->
     0 < c_ecdsa c < secp_q /\ 0 < c_elgamal c < secp_q /\
     bitlen (c_P c) = bits_blum_prime /\ bitlen (c_Q c) = bits_blum_prime /\
     c_P c mod 4 = 3 /\ c_Q c mod 4 = 3 /\
-    pt (c_P c / 2) = true /\ pt (c_Q c / 2) = true /\
+    pt (c_P c / 2) = true /\ pt (c_Q c / 2) = true /\ pt (c_P c) = true /\ pt (c_Q c) = true /\
+    c_P c <> c_Q c /\
+    bitlen (c_P c * c_Q c) = bits_paillier /\
     0 <= c_threshold c <= Z.of_nat (length (c_public c)) - 1 /\
     NoDup (map pc_id (c_public c)) /\ In (c_id c) (map pc_id (c_public c)) /\
     Forall (entry_ok (c_id c) (c_ecdsa c) (c_elgamal c) (c_P c * c_Q c)) (c_public c) /\
-    c_rid c = cm_rid cm /\ c_chain c = cm_chain cm.
+    valid_rid (c_rid c) /\ valid_rid (c_chain c) /\ nonzero_rid (c_rid c) /\ nonzero_rid (c_chain c).
   Proof.
     intros (Hx & Hy & Hpub) H. unfold config_checks in H.
+    destruct (cm_P cm) as [P|] eqn:EcP; [|discriminate].
+    destruct (cm_Q cm) as [Q|] eqn:EcQ; [|discriminate].
+    destruct (rid_validate (cm_rid cm)) eqn:Er; cbn [negb] in H; [|discriminate].
+    destruct (rid_validate (cm_chain cm)) eqn:Ec; cbn [negb] in H; [|discriminate].
     destruct ((cm_ecdsa cm =? 0) || (cm_elgamal cm =? 0)) eqn:Ez; [discriminate|].
     apply orb_false_iff in Ez as [Ex Ey]. apply Z.eqb_neq in Ex, Ey.
-    destruct (validate_prime pt (cm_P cm)) eqn:EP; cbn [negb] in H; [|discriminate].
-    destruct (validate_prime pt (cm_Q cm)) eqn:EQ; cbn [negb] in H; [|discriminate].
-    apply validate_prime_spec in EP as (P & EP & HPb & HP4 & HPt).
-    apply validate_prime_spec in EQ as (Q & EQ & HQb & HQ4 & HQt).
-    rewrite EP, EQ in H.
+    destruct (validate_prime pt (Some P)) eqn:EP; cbn [negb] in H; [|discriminate].
+    destruct (validate_prime pt (Some Q)) eqn:EQ; cbn [negb] in H; [|discriminate].
+    apply validate_prime_spec in EP as (P' & EP & HPb & HP4 & HPt & HPp). injection EP as <-.
+    apply validate_prime_spec in EQ as (Q' & EQ & HQb & HQ4 & HQt & HQp). injection EQ as <-.
+    destruct (Z.eqb_spec P Q) as [|Hne]; [discriminate|].
+    destruct (validate_N (Some (P * Q))) eqn:EN; cbn [negb] in H; [|discriminate].
+    apply validate_N_spec in EN as (n' & En' & HNb & HNodd). injection En' as <-.
     destruct (process_publics ab (cm_id cm) (cm_ecdsa cm) (cm_elgamal cm) (P * Q) (cm_public cm) [])
       as [ps|code|] eqn:Eps; try discriminate.
     destruct (valid_threshold (cm_threshold cm) (Z.of_nat (length ps))) eqn:Et; cbn [negb] in H; [|discriminate].
     destruct (has_id (cm_id cm) ps) eqn:Eid; cbn [negb] in H; [|discriminate].
     injection H as <-. cbn.
-    apply process_publics_inv in Eps as [Hnd Hok]; auto; [|constructor].
+    apply process_publics_inv in Eps as [Hnd Hok]; auto; [|apply bitlen_gt1; rewrite HNb; reflexivity|constructor].
     apply valid_threshold_spec in Et. apply has_id_true in Eid.
-    repeat split; auto; lia.
+    apply rid_validate_spec in Er as [Er1 Er2]. apply rid_validate_spec in Ec as [Ec1 Ec2].
+    repeat (split; [first [assumption | lia]|]). assumption.
   Qed.
 
-  (* C15_config_unmarshal_sound, with the hypotheses the code does not establish made explicit *)
-  Theorem config_checks_sound_partial cm c :
-    wf_config_m cm ->
-    config_checks pt ab cm = Ok c ->
-    prime (c_P c) -> prime (c_Q c) ->                       (* ValidatePrime tests (p-1)/2, never p *)
-    bitlen (c_P c * c_Q c) = bits_paillier ->                (* the size of the own modulus is never looked at *)
-    (forall p, In p (c_public c) -> pc_id p = c_id c ->
-               valid_pedersen (pc_N p) (pc_S p) (pc_T p)) -> (* own Pedersen S, T are copied unchecked *)
-    valid_rid (c_rid c) -> valid_rid (c_chain c) ->          (* RID / ChainKey are copied unchecked *)
-    valid_config c.
+  (* the primality test is what it claims to be (Go's ProbablyPrime has no known false positive on such input;
+     this is the one assumption about the outside that the theorem needs) *)
+  Hypothesis pt_sound : forall p, pt p = true -> prime p.
+
+  (* C15_config_unmarshal_sound on decoded records *)
+  Theorem config_checks_sound cm c :
+    wf_config_m cm -> config_checks pt ab cm = Ok c -> valid_config c.
   Proof.
-    intros Hwf H HpP HpQ Hbits Hped Hrid Hck.
+    intros Hwf H.
     destruct (config_checks_facts cm c Hwf H)
-      as (Hx & Hy & HPb & HQb & HP4 & HQ4 & _ & _ & Ht & Hnd & Hin & Hok & _ & _).
+      as (Hx & Hy & HPb & HQb & HP4 & HQ4 & _ & _ & HPp & HQp & _ & HNb & Ht & Hnd & Hin & Hok & Hr & Hc & _ & _).
+    apply pt_sound in HPp, HQp.
     unfold valid_config. do 11 (split; [assumption|]). split; [|split; assumption].
     rewrite Forall_forall in *. intros p Hp. specialize (Hok p Hp).
-    destruct Hok as [(Eid & E1 & E2 & EN) | (_ & Hv)]; [|assumption].
+    destruct Hok as [(Eid & E1 & E2 & EN & Hped) | (_ & Hv)]; [|assumption].
     unfold valid_pub. rewrite E1, E2, EN.
     split; [now apply ab_valid|]. split; [now apply ab_valid|]. split; [assumption|].
     split; [rewrite Z.odd_mul, (mod4_3_odd _ HP4), (mod4_3_odd _ HQ4); reflexivity|].
-    rewrite <- EN. now apply Hped.
+    assumption.
   Qed.
 
-  (* ---- refutations of the unconditional statement ---- *)
+  (* ---- the code before fix 3216d4d / 8307514: refutations of the same statement, kept as regression examples ---- *)
 
   Definition id_a : bytes := [97%N].
 
@@ -949,69 +974,80 @@ Section ConfigSound.
     repeat split; try lia. constructor; [|constructor]. cbn. split; now left.
   Qed.
 
-  Lemma witness_checks P Q S T rid chain :
-    validate_prime pt (Some P) = true -> validate_prime pt (Some Q) = true ->
-    config_checks pt ab (witness_cm P Q S T rid chain) = Ok (witness_c P Q S T rid chain).
+  Lemma witness_checks_v0 P Q S T rid chain :
+    validate_prime_v0 pt (Some P) = true -> validate_prime_v0 pt (Some Q) = true ->
+    config_checks_v0 pt ab (witness_cm P Q S T rid chain) = Ok (witness_c P Q S T rid chain).
   Proof.
-    intros HP HQ. unfold config_checks, witness_cm.
+    intros HP HQ. unfold config_checks_v0, witness_cm.
     cbn [cm_id cm_threshold cm_ecdsa cm_elgamal cm_P cm_Q cm_rid cm_chain cm_public].
     rewrite HP, HQ. cbn [Z.eqb orb negb].
-    cbn [process_publics has_id existsb pm_id app].
+    cbn [process_publics_v0 has_id existsb pm_id app].
     replace (bytes_eqb id_a id_a) with true by reflexivity.
     cbn [length Z.of_nat pm_S pm_T has_id existsb pc_id].
     replace (bytes_eqb id_a id_a) with true by reflexivity.
     reflexivity.
   Qed.
 
-  Definition rid0 : option bytes := Some (zeros 32).
+  Definition rid1 : option bytes := Some (1%N :: zeros 31).
 
-  Lemma rid0_valid : valid_rid rid0.
-  Proof. exists (zeros 32). split; reflexivity. Qed.
-
-  (* (a) the own Pedersen parameters are never validated: nil S and T come back inside a "restored" config *)
-  Theorem config_own_pedersen_unchecked_refuted P Q :
-    validate_prime pt (Some P) = true -> validate_prime pt (Some Q) = true ->
-    exists cm c, wf_config_m cm /\ config_checks pt ab cm = Ok c /\ ~ valid_config c.
+  (* (a) the own Pedersen parameters were never validated: nil S and T came back inside a "restored" config *)
+  Theorem config_v0_own_pedersen_unchecked_refuted P Q :
+    validate_prime_v0 pt (Some P) = true -> validate_prime_v0 pt (Some Q) = true ->
+    exists cm c, wf_config_m cm /\ config_checks_v0 pt ab cm = Ok c /\ ~ valid_config c.
   Proof.
-    intros HP HQ. exists (witness_cm P Q None None rid0 rid0), (witness_c P Q None None rid0 rid0).
-    split; [apply witness_wf|]. split; [now apply witness_checks|].
+    intros HP HQ. exists (witness_cm P Q None None rid1 rid1), (witness_c P Q None None rid1 rid1).
+    split; [apply witness_wf|]. split; [now apply witness_checks_v0|].
     intros (_ & _ & _ & _ & _ & _ & _ & _ & _ & _ & _ & Hpub & _).
     inversion Hpub as [|? ? Hv _]; subst. destruct Hv as (_ & _ & _ & _ & (s & t & Hs & _)). discriminate.
   Qed.
 
-  (* (b) RID and ChainKey are never validated: nil (or any length) comes back *)
-  Theorem config_rid_unchecked_refuted P Q :
-    validate_prime pt (Some P) = true -> validate_prime pt (Some Q) = true ->
-    exists cm c, wf_config_m cm /\ config_checks pt ab cm = Ok c /\ ~ valid_config c.
+  (* (b) RID and ChainKey were never validated: nil (or any length) came back *)
+  Theorem config_v0_rid_unchecked_refuted P Q :
+    validate_prime_v0 pt (Some P) = true -> validate_prime_v0 pt (Some Q) = true ->
+    exists cm c, wf_config_m cm /\ config_checks_v0 pt ab cm = Ok c /\ ~ valid_config c.
   Proof.
     intros HP HQ. exists (witness_cm P Q (Some 2) (Some 3) None None), (witness_c P Q (Some 2) (Some 3) None None).
-    split; [apply witness_wf|]. split; [now apply witness_checks|].
+    split; [apply witness_wf|]. split; [now apply witness_checks_v0|].
     intros (_ & _ & _ & _ & _ & _ & _ & _ & _ & _ & _ & _ & (b & Hb & _) & _). discriminate.
   Qed.
 
-  (* (c) ValidatePrime accepts a composite P as long as (P-1)/2 passes the primality test *)
-  Theorem config_composite_prime_refuted P Q :
-    validate_prime pt (Some P) = true -> validate_prime pt (Some Q) = true ->
+  (* (c) ValidatePrime accepted a composite P as long as (P-1)/2 passed the primality test *)
+  Theorem config_v0_composite_prime_refuted P Q :
+    validate_prime_v0 pt (Some P) = true -> validate_prime_v0 pt (Some Q) = true ->
     (3 | P) -> 3 < P ->
-    exists cm c, wf_config_m cm /\ config_checks pt ab cm = Ok c /\ ~ valid_config c.
+    exists cm c, wf_config_m cm /\ config_checks_v0 pt ab cm = Ok c /\ ~ valid_config c.
   Proof.
-    intros HP HQ H3 Hgt. exists (witness_cm P Q (Some 2) (Some 3) rid0 rid0), (witness_c P Q (Some 2) (Some 3) rid0 rid0).
-    split; [apply witness_wf|]. split; [now apply witness_checks|].
+    intros HP HQ H3 Hgt. exists (witness_cm P Q (Some 2) (Some 3) rid1 rid1), (witness_c P Q (Some 2) (Some 3) rid1 rid1).
+    split; [apply witness_wf|]. split; [now apply witness_checks_v0|].
     intros (_ & _ & Hprime & _). cbn in Hprime.
     destruct (prime_divisors P Hprime 3 H3) as [E|[E|[E|E]]]; lia.
   Qed.
 
-  (* (d) nothing relates the size of P*Q to 2048 bits: two 1024-bit primes can have a 2047-bit product,
-         which every OTHER party's UnmarshalBinary (ValidateN) refuses *)
-  Theorem config_own_modulus_size_refuted P Q :
-    validate_prime pt (Some P) = true -> validate_prime pt (Some Q) = true ->
+  (* (d) nothing related the size of P*Q to 2048 bits *)
+  Theorem config_v0_own_modulus_size_refuted P Q :
+    validate_prime_v0 pt (Some P) = true -> validate_prime_v0 pt (Some Q) = true ->
     bitlen (P * Q) <> bits_paillier ->
-    exists cm c, wf_config_m cm /\ config_checks pt ab cm = Ok c /\ ~ valid_config c.
+    exists cm c, wf_config_m cm /\ config_checks_v0 pt ab cm = Ok c /\ ~ valid_config c.
   Proof.
-    intros HP HQ Hb. exists (witness_cm P Q (Some 2) (Some 3) rid0 rid0), (witness_c P Q (Some 2) (Some 3) rid0 rid0).
-    split; [apply witness_wf|]. split; [now apply witness_checks|].
+    intros HP HQ Hb. exists (witness_cm P Q (Some 2) (Some 3) rid1 rid1), (witness_c P Q (Some 2) (Some 3) rid1 rid1).
+    split; [apply witness_wf|]. split; [now apply witness_checks_v0|].
     intros (_ & _ & _ & _ & _ & _ & _ & _ & _ & _ & _ & Hpub & _).
     inversion Hpub as [|? ? Hv _]; subst. destruct Hv as (_ & _ & Hbits & _). cbn in Hbits. contradiction.
+  Qed.
+
+  (* the repaired checks refuse each of these witnesses *)
+  Theorem config_checks_refuse_v0_witnesses P Q :
+    config_checks pt ab (witness_cm P Q None None rid1 rid1) = Err 17 \/
+    exists c, config_checks pt ab (witness_cm P Q None None rid1 rid1) = Err c /\ (c < 17)%N.
+  Proof.
+    unfold config_checks, witness_cm.
+    cbn [cm_id cm_threshold cm_ecdsa cm_elgamal cm_P cm_Q cm_rid cm_chain cm_public].
+    replace (rid_validate rid1) with true by reflexivity. cbn [negb Z.eqb orb].
+    destruct (validate_prime pt (Some P)); cbn [negb]; [|right; exists 3%N; split; [reflexivity|lia]].
+    destruct (validate_prime pt (Some Q)); cbn [negb]; [|right; exists 4%N; split; [reflexivity|lia]].
+    destruct (P =? Q); [right; exists 15%N; split; [reflexivity|lia]|].
+    destruct (validate_N (Some (P * Q))); cbn [negb]; [|right; exists 16%N; split; [reflexivity|lia]].
+    left. reflexivity.
   Qed.
 End ConfigSound.
 
@@ -1080,47 +1116,59 @@ Section UnmarshalSound.
   Variable pt : Z -> bool.
   Variable ab : Z -> point.
   Hypothesis ab_valid : forall k, 0 < k < secp_q -> valid_point (ab k).
+  Hypothesis pt_sound : forall p, pt p = true -> prime p.
+
+  Lemma recovered_ok {A} (o : outcome A) a : recovered o = Ok a -> o = Ok a.
+  Proof. destruct o; cbn; congruence. Qed.
 
   Lemma config_unmarshal_inv bs c :
     config_unmarshal pt ab bs = Ok c ->
     exists cm, wf_config_m cm /\ config_checks pt ab cm = Ok c.
   Proof.
     unfold config_unmarshal. destruct (decode bs) as [[t r]|]; [|discriminate].
-    destruct (config_of_tree t) as [cm| |] eqn:Et.
-    - intro H. exists cm. split; [eapply config_of_tree_wf; eauto|].
-      destruct t; try assumption. discriminate H.
-    - destruct t; discriminate.
-    - destruct t; discriminate.
+    intro H.
+    assert (H' : recovered match config_of_tree t with
+                           | Ok cm => config_checks pt ab cm | Err c0 => Err c0 | Panic => Panic end = Ok c)
+      by (destruct t; try exact H; discriminate H).
+    apply recovered_ok in H'.
+    destruct (config_of_tree t) as [cm| |] eqn:Et; try discriminate.
+    exists cm. split; [eapply config_of_tree_wf; eauto | assumption].
   Qed.
 
-  (* the property's statement over BYTES, with exactly the hypotheses that the code does not establish *)
-  Theorem config_unmarshal_sound_partial bs c :
-    config_unmarshal pt ab bs = Ok c ->
-    prime (c_P c) -> prime (c_Q c) ->
-    bitlen (c_P c * c_Q c) = bits_paillier ->
-    (forall p, In p (c_public c) -> pc_id p = c_id c -> valid_pedersen (pc_N p) (pc_S p) (pc_T p)) ->
-    valid_rid (c_rid c) -> valid_rid (c_chain c) ->
-    valid_config c.
+  (* the property's statement over BYTES for the repaired code: whatever UnmarshalBinary accepts is valid.
+     Hypotheses: the primality test is sound, and the group fact. *)
+  Theorem config_unmarshal_sound bs c : config_unmarshal pt ab bs = Ok c -> valid_config c.
   Proof.
     intro H. apply config_unmarshal_inv in H as (cm & Hwf & H).
-    now apply (config_checks_sound_partial pt ab ab_valid cm c).
+    now apply (config_checks_sound pt ab ab_valid pt_sound cm c).
   Qed.
-
-  (* CBOR null (one byte, 0xf6) makes cbor.Unmarshal set the *configMarshal to nil; the next line
-     dereferences it.  "Restoring from adversarial bytes reports an error" fails with a panic. *)
-  Theorem config_unmarshal_null_panics : config_unmarshal pt ab [246%N] = Panic.
-  Proof. reflexivity. Qed.
 End UnmarshalSound.
 
+(* UnmarshalBinary never panics (deferred recover; nil checks) -- whatever the bytes, whatever the oracle *)
+Theorem config_unmarshal_total pt ab bs : config_unmarshal pt ab bs <> Panic.
+Proof.
+  unfold config_unmarshal. destruct (decode bs) as [[t r]|]; [|discriminate].
+  assert (R : forall o : outcome config_c, recovered o <> Panic) by (intros [| |]; discriminate).
+  destruct t; try apply R. discriminate.
+Qed.
+
+(* CBOR null (one byte, 0xf6): "missing fields" now *)
+Theorem config_unmarshal_null_is_error pt ab : config_unmarshal pt ab [246%N] = Err 12.
+Proof. reflexivity. Qed.
+
+(* before the fix cbor.Unmarshal set the *configMarshal to nil and the next line dereferenced it *)
+Theorem config_unmarshal_v0_null_panics pt ab : config_unmarshal_v0 pt ab [246%N] = Panic.
+Proof. reflexivity. Qed.
+
 (* a public entry whose modulus N is the empty / an all-zero byte string: saferith panics ("Modulus is empty")
-   inside cbor.Unmarshal of that entry *)
+   inside cbor.Unmarshal of that entry; the panic reached the caller before the fix and is "malformed data" now *)
 Theorem pub_entry_zero_modulus_panics :
   pub_of_tree (CMap [ (CText k_id, CText [98%N]); (CText k_ecdsa, CNull); (CText k_elgamal, CNull);
                       (CText k_N, CBytes []); (CText k_S, CNull); (CText k_T, CNull) ]) = Panic.
 Proof. reflexivity. Qed.
 
-Theorem process_publics_panic_propagates ab id x y NN l acc :
-  process_publics ab id x y NN (Panic :: l) acc = Panic.
+Theorem process_publics_v0_panic_propagates ab id x y NN l acc :
+  process_publics_v0 ab id x y NN (Panic :: l) acc = Panic.
 Proof. reflexivity. Qed.
 
 (* ---- concrete 1024-bit numbers for the refutations (the harness feeds the same numbers to Go) ---- *)
@@ -1133,10 +1181,10 @@ Definition PC : Z := 0xe10c83b59fe446bfc3bf8a9e388c2389144c12f3af221589c0c84b33c
 (* a safe prime just above 2^1023: its square has 2047 bits *)
 Definition PS : Z := 0x9079f0daff9edfa72f2f6aa497b20148128454f246a08e60abd172e228b24c58e43f4824e2bc664d52a1d17cac5aac1760825d089c945bab733e6649f88115a92c3dddc9ccc4f9b9aa809a0d880a5f2db65d45cf08febad6a790123b1c8e90ef3747b67f5ce2641194adbc3f9944e10ea9c4fc8e372ce568a3016c8672c12553.
 
-Lemma validate_prime_of pt p :
+Lemma validate_prime_v0_of pt p :
   (bitlen p =? bits_blum_prime) = true -> (p mod 4 =? 3) = true -> pt (p / 2) = true ->
-  validate_prime pt (Some p) = true.
-Proof. intros H1 H2 H3. cbn [validate_prime]. now rewrite H1, H2, H3. Qed.
+  validate_prime_v0 pt (Some p) = true.
+Proof. intros H1 H2 H3. cbn [validate_prime_v0]. now rewrite H1, H2, H3. Qed.
 
 Lemma P0_shape : (bitlen P0 =? bits_blum_prime) = true /\ (P0 mod 4 =? 3) = true.
 Proof. split; vm_compute; reflexivity. Qed.
@@ -1151,39 +1199,48 @@ Qed.
 Lemma PS_shape : (bitlen PS =? bits_blum_prime) = true /\ (PS mod 4 =? 3) = true /\ bitlen (PS * PS) = 2047.
 Proof. split; [vm_compute; reflexivity|]. split; vm_compute; reflexivity. Qed.
 
-(* the refutations with every number concrete: the only thing taken from outside is the verdict of the
-   primality test on three given integers (Go's ProbablyPrime says true on all of them; the harness checks) *)
-Theorem config_unmarshal_sound_refuted (pt : Z -> bool) (ab : Z -> point) :
+(* the refutations of the OLD code with every number concrete: the only thing taken from outside is the verdict
+   of the primality test on given integers (Go's ProbablyPrime says true on all of them; the harness checks) *)
+Theorem config_unmarshal_sound_v0_refuted (pt : Z -> bool) (ab : Z -> point) :
   pt (P0 / 2) = true -> pt (Q0 / 2) = true ->
-  exists cm c, wf_config_m cm /\ config_checks pt ab cm = Ok c /\ ~ valid_config c.
+  exists cm c, wf_config_m cm /\ config_checks_v0 pt ab cm = Ok c /\ ~ valid_config c.
 Proof.
   intros HP HQ. destruct P0_shape as [A1 A2]. destruct Q0_shape as [B1 B2].
-  apply (config_own_pedersen_unchecked_refuted pt ab P0 Q0); now apply validate_prime_of.
+  apply (config_v0_own_pedersen_unchecked_refuted pt ab P0 Q0); now apply validate_prime_v0_of.
 Qed.
 
-Theorem config_rid_refuted (pt : Z -> bool) (ab : Z -> point) :
+Theorem config_rid_v0_refuted (pt : Z -> bool) (ab : Z -> point) :
   pt (P0 / 2) = true -> pt (Q0 / 2) = true ->
-  exists cm c, wf_config_m cm /\ config_checks pt ab cm = Ok c /\ ~ valid_config c.
+  exists cm c, wf_config_m cm /\ config_checks_v0 pt ab cm = Ok c /\ ~ valid_config c.
 Proof.
   intros HP HQ. destruct P0_shape as [A1 A2]. destruct Q0_shape as [B1 B2].
-  apply (config_rid_unchecked_refuted pt ab P0 Q0); now apply validate_prime_of.
+  apply (config_v0_rid_unchecked_refuted pt ab P0 Q0); now apply validate_prime_v0_of.
 Qed.
 
-Theorem config_composite_refuted (pt : Z -> bool) (ab : Z -> point) :
+Theorem config_composite_v0_refuted (pt : Z -> bool) (ab : Z -> point) :
   pt (PC / 2) = true -> pt (Q0 / 2) = true ->
-  exists cm c, wf_config_m cm /\ config_checks pt ab cm = Ok c /\ ~ valid_config c.
+  exists cm c, wf_config_m cm /\ config_checks_v0 pt ab cm = Ok c /\ ~ valid_config c.
 Proof.
   intros HP HQ. destruct PC_shape as (A1 & A2 & A3 & A4). destruct Q0_shape as [B1 B2].
-  apply (config_composite_prime_refuted pt ab PC Q0); auto; now apply validate_prime_of.
+  apply (config_v0_composite_prime_refuted pt ab PC Q0); auto; now apply validate_prime_v0_of.
 Qed.
 
-Theorem config_modulus_size_refuted (pt : Z -> bool) (ab : Z -> point) :
+Theorem config_modulus_size_v0_refuted (pt : Z -> bool) (ab : Z -> point) :
   pt (PS / 2) = true ->
-  exists cm c, wf_config_m cm /\ config_checks pt ab cm = Ok c /\ ~ valid_config c.
+  exists cm c, wf_config_m cm /\ config_checks_v0 pt ab cm = Ok c /\ ~ valid_config c.
 Proof.
   intros HP. destruct PS_shape as (A1 & A2 & A3).
-  apply (config_own_modulus_size_refuted pt ab PS PS); try (now apply validate_prime_of).
+  apply (config_v0_own_modulus_size_refuted pt ab PS PS); try (now apply validate_prime_v0_of).
   rewrite A3. discriminate.
+Qed.
+
+(* the composite PC is refused by the repaired ValidatePrime as soon as the test is sound *)
+Theorem validate_prime_refuses_composite (pt : Z -> bool) :
+  (forall p, pt p = true -> prime p) -> validate_prime pt (Some PC) = false.
+Proof.
+  intro Hs. cbn [validate_prime]. destruct (pt PC) eqn:E; [|now rewrite andb_false_r].
+  apply Hs in E. destruct PC_shape as (_ & _ & H3 & Hgt).
+  destruct (prime_divisors PC E 3 H3) as [E'|[E'|[E'|E']]]; lia.
 Qed.
 
 (* ------------------------------------------------------------------------------------------------ *)
